@@ -642,6 +642,7 @@ def _parse_source_for_lambda(
     func_name = None
     start_token = None
     source, lambda_line = _get_sourcelines(ast_source)
+    callable_line = lambda_line
     t_stream = None
     while func_name is None:
         # Setup the tokenizer
@@ -675,7 +676,10 @@ def _parse_source_for_lambda(
         saw_new_line = False
         while not saw_new_line:
             lda, saw_new_line = _get_lambda_in_stream(t_stream, start_token)
-            lambdas_on_a_line[func_name.string if func_name is not None else None].append(lda)
+            # The scan may have started above the callable's own line (and may pick up lambdas
+            # from further down) - only a lambda that starts on that line can be the one.
+            if lda is not None and lambda_line + start_token.start[0] - 1 == callable_line:
+                lambdas_on_a_line[func_name.string if func_name is not None else None].append(lda)
 
             if saw_new_line:
                 break
